@@ -5,7 +5,9 @@ import ExoVerif.Model.Epochs
   Mirrors, as they are:
     x/delegation/keeper/genesis.go   ExportGenesis = AllUndelegations (records only; the hold counts written by
                                      IncrementUndelegationHoldCount live under their own prefix and are not exported),
-                                     InitGenesis = SetUndelegationRecords (no hold count written);
+                                     InitGenesis = SetUndelegationRecords (no hold count written); since the F-18b repair
+                                     x/dogfood InitGenesis calls IncrementUndelegationHoldCount for every record key it
+                                     imports into the maturity queue (`Prefixes.rebuildHolds`);
     x/dogfood/keeper/genesis.go      ExportGenesis = GetAllOptOutsToFinish / GetAllConsAddrsToPrune /
                                      GetAllUndelegationsToMature — each iterates the byte prefix given in `Prefixes.*Iter`
                                      (regenerated from opt_out.go / unbonding.go), InitGenesis re-appends every exported
@@ -15,7 +17,8 @@ import ExoVerif.Model.Epochs
                                      and reverse entry of the CURRENT key) + SetAllPrevConsKeys (forward entry of the
                                      previous key only; its reverse lookup ChainIDAndConsKeyToOperator is not rebuilt);
     x/epochs/keeper/genesis.go       ExportGenesis = AllEpochInfos, InitGenesis = AddEpochInfo per entry.
-  Items of the per-epoch queues are opaque strings (the three value types are all `repeated bytes`).
+  Items of the per-epoch queues are opaque strings (the three value types are all `repeated bytes`); a maturity
+  entry additionally lists the undelegation record ids it holds (`QEntry.recs`).
   Assets, oracle, mint and fee-distribution have no model: differential run only.
 -/
 namespace ExoVerif.Genesis
@@ -33,6 +36,8 @@ structure QEntry where
   pfx : Nat
   epoch : Int
   item : String
+  /-- maturity entries only: the undelegation record ids the entry lists (empty for the other two queues) -/
+  recs : List String := []
 deriving DecidableEq, Repr, Inhabited
 
 /-- the byte prefixes the three `GetAll*` exporters iterate and the three setters write -/
@@ -43,12 +48,18 @@ structure Prefixes where
   optOutsSet : Nat
   prunesSet : Nat
   maturesSet : Nat
+  /-- x/dogfood InitGenesis re-places the hold of every imported maturity record -/
+  rebuildHolds : Bool
 deriving DecidableEq, Repr, Inhabited
 
-/-- the code as it is: all three exporters iterate OptOutsToFinishBytePrefix (3) -/
-def codePrefixes : Prefixes := { optOutsIter := 3, prunesIter := 3, maturesIter := 3, optOutsSet := 3, prunesSet := 5, maturesSet := 6 }
-/-- what the setters' prefixes say the exporters should iterate -/
-def fixedPrefixes : Prefixes := { optOutsIter := 3, prunesIter := 5, maturesIter := 6, optOutsSet := 3, prunesSet := 5, maturesSet := 6 }
+/-- the code as it is (after the F-18a / F-18b repairs): every exporter iterates the prefix its setter writes,
+    holds are re-placed at import -/
+def codePrefixes : Prefixes :=
+  { optOutsIter := 3, prunesIter := 5, maturesIter := 6, optOutsSet := 3, prunesSet := 5, maturesSet := 6, rebuildHolds := true }
+/-- the code before the repairs: all three exporters iterated OptOutsToFinishBytePrefix (3), no hold was rebuilt.
+    Kept for the regression theorems. -/
+def preFixPrefixes : Prefixes :=
+  { optOutsIter := 3, prunesIter := 3, maturesIter := 3, optOutsSet := 3, prunesSet := 5, maturesSet := 6, rebuildHolds := false }
 
 structure Core where
   unds : List Und
@@ -61,16 +72,16 @@ deriving Repr, Inhabited
 
 structure Doc where
   undelegations : List (String × Int × Int)
-  optOuts : List (Int × String)
-  prunes : List (Int × String)
-  matures : List (Int × String)
+  optOuts : List (Int × String × List String)
+  prunes : List (Int × String × List String)
+  matures : List (Int × String × List String)
   curKeys : List (String × String)
   prevKeys : List (String × String)
   epochs : List EpochInfo
 deriving Repr, Inhabited
 
-def queueOf (p : Nat) (qs : List QEntry) : List (Int × String) :=
-  (qs.filter (fun q => q.pfx == p)).map (fun q => (q.epoch, q.item))
+def queueOf (p : Nat) (qs : List QEntry) : List (Int × String × List String) :=
+  (qs.filter (fun q => q.pfx == p)).map (fun q => (q.epoch, q.item, q.recs))
 
 def exportDoc (P : Prefixes) (s : Core) : Doc :=
   { undelegations := s.unds.map (fun u => (u.id, u.complete, u.amount)),
@@ -79,15 +90,20 @@ def exportDoc (P : Prefixes) (s : Core) : Doc :=
     matures := queueOf P.maturesIter s.queues,
     curKeys := s.curKeys, prevKeys := s.prevKeys, epochs := s.epochs }
 
+/-- number of imported maturity entries that list record `id` (one IncrementUndelegationHoldCount each) -/
+def holdOf (ms : List (Int × String × List String)) (id : String) : Int :=
+  ((ms.filter (fun e => e.2.2.contains id)).length : Int)
+
 /-- x/epochs AddEpochInfo at import (block time `bt`, height `h`) -/
 def initEpoch (bt h : Int) (e : EpochInfo) : EpochInfo :=
   { e with startTime := if e.startTime = 0 then bt else e.startTime,
            currentEpochStartHeight := if e.currentEpochStartHeight = 0 then h else e.currentEpochStartHeight }
 
 def init (P : Prefixes) (bt h : Int) (d : Doc) : Core :=
-  { unds := d.undelegations.map (fun r => { id := r.1, complete := r.2.1, amount := r.2.2, hold := 0 }),
-    queues := d.optOuts.map (fun r => ⟨P.optOutsSet, r.1, r.2⟩) ++ d.prunes.map (fun r => ⟨P.prunesSet, r.1, r.2⟩) ++
-              d.matures.map (fun r => ⟨P.maturesSet, r.1, r.2⟩),
+  { unds := d.undelegations.map (fun r => { id := r.1, complete := r.2.1, amount := r.2.2,
+                                            hold := if P.rebuildHolds then holdOf d.matures r.1 else 0 }),
+    queues := d.optOuts.map (fun r => ⟨P.optOutsSet, r.1, r.2.1, r.2.2⟩) ++ d.prunes.map (fun r => ⟨P.prunesSet, r.1, r.2.1, r.2.2⟩) ++
+              d.matures.map (fun r => ⟨P.maturesSet, r.1, r.2.1, r.2.2⟩),
     curKeys := d.curKeys, prevKeys := d.prevKeys,
     reverse := d.curKeys.map (fun k => (k.2, k.1)),
     epochs := (d.epochs.filter valid).map (initEpoch bt h) }
